@@ -8,9 +8,13 @@
    by the driver to show that the termination property is not vacuous.
    QuitOnEmpty = TRUE is a worker function that stops consuming its queue iterator after an
    item that produces no result (e.g. a regeneration worker returning on a package with
-   broken metadata); it must violate ExactlyOnceAtReturn (non-vacuity).                    *)
+   broken metadata); it must violate ExactlyOnceAtReturn (non-vacuity).
+   QuitWhenIdle = TRUE is a worker that takes a momentarily empty queue for the end of the
+   input (e.g. a get with a timeout while the producer is slower than the consumers); it must
+   violate ExactlyOnceAtReturn as well.  In the design a worker BLOCKS on an empty queue: Get
+   is simply not enabled, for however long the feeder takes.                               *)
 EXTENDS ThreadPool, TLC
-CONSTANTS MaxItems, MaxThreads, MayFail, SentinelRule, QuitOnEmpty
+CONSTANTS MaxItems, MaxThreads, MayFail, SentinelRule, QuitOnEmpty, QuitWhenIdle
 
 VARIABLES n, threads, haslen, out,      \* the call: chosen in Init, then constant
           fpc, started, fed, sent, q, kill, failed,
@@ -67,7 +71,10 @@ EmitOne(w) == /\ wpc[w] = "emit"
               /\ wleft' = [wleft EXCEPT ![w] = @ - 1]
               /\ wpc' = [wpc EXCEPT ![w] = IF wleft[w] = 1 THEN "check" ELSE "emit"]
               /\ UNCHANGED <<cfgv, fpc, started, fed, sent, q, kill, failed, witem, taken>>
-Worker(w) == Check(w) \/ Get(w) \/ EmitOne(w)
+GiveUp(w) == /\ QuitWhenIdle /\ wpc[w] = "get" /\ q = <<>>
+             /\ wpc' = [wpc EXCEPT ![w] = "done"]
+             /\ UNCHANGED <<cfgv, fpc, started, fed, sent, q, kill, failed, witem, wleft, taken, results>>
+Worker(w) == Check(w) \/ Get(w) \/ EmitOne(w) \/ GiveUp(w)
 
 Next == StartThread \/ Feed \/ PutSentinel \/ Join \/ \E w \in W : Worker(w)
 Spec == Init /\ [][Next]_vars
